@@ -99,14 +99,15 @@ CHECKS.update({
              "afterwards; copies have the selected keys/parents/indices, deep copies share no object. The model is compared with "
              "the real objects after every operation of seeded and enumerated histories. "
              "A content-binding refinement (origin of every constructed object: record number of an index-addressed file / data set "
-             "name of a name-addressed file / added series / deep copy, and per key the registered record) proves that a read "
-             "returns the record the key was registered for: the invariant is preserved by every operation except rename of a "
-             "not-yet-read series of a name-addressed file (binding_step_partial, binding_run_partial), holds at full strength after "
-             "every history on index-addressed files (binding_run_indexed), getm/get-by-index return objects bound to the "
-             "registered records in selection order (getm_returns_registered), rename moves record and object and nothing else "
-             "(rename_keeps_record), and the unrestricted statement is refuted by kernel-evaluated counter-histories "
-             "(f17_counterexample, f17_swap_counterexample, binding_run_full_false); the binding prediction is compared per "
-             "operation with a dictionary model and with the data the real objects return.",
+             "of a name-addressed file under the name registered at load time / added series / deep copy, and per key the registered "
+             "record) proves that a read returns the record the key was registered for: the invariant holds initially and is "
+             "preserved by every well-formed operation, hence holds after every history, renames of not-yet-read series of "
+             "name-addressed files included (binding_step, binding_run; the restriction needed before the repair of finding F17 is "
+             "gone and its counter-histories are kept as kernel-evaluated regression examples f17_history_bound, "
+             "f17_swap_history_bound); getm/get-by-index return objects bound to the registered records in selection order "
+             "(getm_returns_registered), rename moves record and object and nothing else (rename_keeps_record); the binding "
+             "prediction is compared per operation with a dictionary model and with the data the real objects return, for all ten "
+             "file formats; requests with lists of files / patterns are modelled as sequences of the model's operations.",
         note=TB + "Series data and file reading are abstracted (C01). Name resolution is C09's model.",
         ref="4/C08"),
     "C09": dict(
